@@ -111,6 +111,8 @@ def body_text(v, with_attrs, co=None):
     fs = []
     for i, f in enumerate(v["fields"]):
         a = f"#[default({f['expr']}{f['bound']})] " if (with_attrs and f["expr"] is not None) else ""
+        if a and with_attrs and co in ("first", "split"):
+            a = '#[doc = "d"] ' + a
         if with_attrs and co and f.get("eq_ignore"):
             a = (f"#[{f['eq_ignore']}(ignore)] " + a) if i % 2 else (a + f"#[{f['eq_ignore']}(ignore)] ")
         fs.append(f"{a}f{i}: {f['ty']}" if v["style"] == "named" else f"{a}{f['ty']}")
